@@ -24,7 +24,21 @@ RunClauses(r) ==
      \cup (IF \E i \in DOMAIN r.probes[p].bad : r.probes[p].bad[i] \notin OutVars
              THEN {IF p \in {"after_2", "exit_2"} THEN "C11_RetryParametersDiffer" ELSE "C11_ParameterValueChanged"} ELSE {})
      : p \in Probes })
-Clauses(r) == IF r.kind = "tok"
+\* kind "cli": the same through the command layer of the real binary: start -p (as the API's client spawns it), restart of
+\* the running DAG (the new run takes the parameters of the previous one), retry of the canceled first run
+CliProbes == {"first_1", "first_2", "after_2", "after_3"}
+CliClauses(r) ==
+  (IF r.infra # "" THEN {"INFRA"} ELSE
+   (IF r.run1 # "canceled" \/ r.run2 # "finished" \/ r.runsRecorded # 2 THEN {"C11_RestartDidNotReplaceTheRun"} ELSE {})
+   \cup UNION {
+     (IF r.probes[p].missing THEN {"C11_ConsumerDidNotRun"} ELSE {})
+     \cup (IF \E i \in DOMAIN r.probes[p].bad : r.probes[p].bad[i] \in OutVars
+             THEN {IF p = "after_3" THEN "C11_OutputLostInRetry" ELSE "C11_OutputValueWrong"} ELSE {})
+     \cup (IF \E i \in DOMAIN r.probes[p].bad : r.probes[p].bad[i] \notin OutVars
+             THEN {IF p = "first_1" THEN "C11_StartParametersChanged"
+                   ELSE IF p = "after_3" THEN "C11_RetryParametersDiffer" ELSE "C11_RestartParametersDiffer"} ELSE {})
+     : p \in CliProbes })
+Clauses(r) == IF r.kind = "cli" THEN CliClauses(r) ELSE IF r.kind = "tok"
                 THEN (IF ~r.err /\ StringifyAll(Tokenize(r["in"])) # r.out THEN {"DRIFT_TokenizerDiffers"} ELSE {})
               ELSE RunClauses(r)
 TInit == l = 1 /\ bad = 0 /\ ps = <<>>
